@@ -827,4 +827,123 @@ theorem canceled_drained_is_final_always (c : Cfg) (ops : List Op)
   · rw [hq] at hx; cases hx
 
 
+/-! ### a final workflow status is never overwritten - for every workflow (jump loops included) and every operation -/
+
+theorem deliverRow_wf_final (c : Cfg) (s : State) (r : Row) (ack : Bool) (k : Option Nat) (hp : Plumb2 s) (hmem : r ∈ s.queue)
+    (h : s.wfStatus.isComplete = true) : (deliverRow c s r ack k).wfStatus = s.wfStatus := by
+  by_cases hpr : r.id ∈ s.processed
+  · rw [deliverRow_processed c s r ack k hpr]; split <;> rfl
+  · cases hr : raises c s { r with attempts := r.attempts + 1 } with
+    | true => rw [deliverRow_raises c s r ack k hpr hr]; rfl
+    | false =>
+      have sh := part_shape c s r ack k hpr (hp.fresh r hmem) hr
+      rw [sh.core.2.1]
+      rcases applyTxn_wf_setWf s (partEffs c s r k) with h1 | ⟨st, hst, _⟩
+      · exact h1
+      · have := (handle_setWf c s _ st (partEffs_sub c s r k _ hst)).1
+        rw [h] at this; cases this
+
+theorem applyTxn_pushes_wf (s : State) (ms : List Msg) : (applyTxn s (ms.map Eff.push)).wfStatus = s.wfStatus := by
+  rcases applyTxn_wf_setWf s (ms.map Eff.push) with h1 | ⟨st, hst, _⟩
+  · exact h1
+  · simp only [List.mem_map] at hst
+    obtain ⟨_, _, h⟩ := hst
+    cases h
+
+theorem deliverRow_plumb2' (c : Cfg) (s : State) (j : Nat) (hp : Plumb2 s) : Plumb2 (step c s (.deliver j)) := by
+  cases hf : s.queue.find? (fun x => x.id == j) with
+  | none => simp only [step, hf]; exact hp
+  | some r => simp only [step, hf]; exact deliverRow_plumb2 c s r true none hp (find_mem hf).1
+
+theorem step_deliver_wf_final (c : Cfg) (s : State) (j : Nat) (hp : Plumb2 s) (h : s.wfStatus.isComplete = true) :
+    (step c s (.deliver j)).wfStatus = s.wfStatus := by
+  cases hf : s.queue.find? (fun x => x.id == j) with
+  | none => simp only [step, hf]
+  | some r => simp only [step, hf]; exact deliverRow_wf_final c s r true none hp (find_mem hf).1 h
+
+theorem inner_fold_wf (c : Cfg) (inner : List Nat) (s2 : State) (hp : Plumb2 s2) (h : s2.wfStatus.isComplete = true) :
+    let s3 := inner.foldl (fun st j => step c st (.deliver j)) s2
+    Plumb2 s3 ∧ s3.wfStatus = s2.wfStatus := by
+  induction inner generalizing s2 with
+  | nil => exact ⟨hp, rfl⟩
+  | cons j js ih =>
+    simp only [List.foldl]
+    have h1 := step_deliver_wf_final c s2 j hp h
+    have h2 := deliverRow_plumb2' c s2 j hp
+    obtain ⟨p3, w3⟩ := ih _ h2 (by rw [h1]; exact h)
+    exact ⟨p3, w3.trans h1⟩
+
+theorem step_wf_final (c : Cfg) (s : State) (op : Op) (hp : Plumb2 s) (h : s.wfStatus.isComplete = true) :
+    (step c s op).wfStatus = s.wfStatus := by
+  cases op with
+  | deliver id => exact step_deliver_wf_final c s id hp h
+  | deliverNoAck id =>
+    cases hf : s.queue.find? (fun x => x.id == id) with
+    | none => simp only [step, hf]
+    | some r => simp only [step, hf]; exact deliverRow_wf_final c s r false none hp (find_mem hf).1 h
+  | crash id k =>
+    cases hf : s.queue.find? (fun x => x.id == id) with
+    | none => simp only [step, hf]
+    | some r => simp only [step, hf]; exact deliverRow_wf_final c s r false (some k) hp (find_mem hf).1 h
+  | cancel => rfl
+  | signal i p => rfl
+  | sweep => exact applyTxn_pushes_wf s _
+  | nested id inner =>
+    cases hf : s.queue.find? (fun x => x.id == id) with
+    | none => simp only [step, hf]
+    | some r0 =>
+      obtain ⟨hmem, _⟩ := find_mem hf
+      have hdel := deliverRow_wf_final c s r0 true none hp hmem h
+      cases hmsg : r0.msg with
+      | runTask i t =>
+        obtain ⟨rid, rmsg, ratt⟩ := r0
+        simp only at hmsg
+        subst hmsg
+        simp only [step, hf]
+        split
+        · rfl
+        · split
+          · exact hdel
+          · have hp1 := claimRow_plumb2 s rid hp
+            have hp2 : Plumb2 (recordExec c (claimRow s rid) ⟨rid, .runTask i t, ratt + 1⟩) := by
+              obtain ⟨q1, q2, q3⟩ := recordExec_queue c (claimRow s rid) ⟨rid, .runTask i t, ratt + 1⟩
+              exact ⟨by rw [q1]; exact hp1.ids, by rw [q1, q2]; exact hp1.fresh, by rw [q2, q3]; exact hp1.pfresh⟩
+            have hw2 : (recordExec c (claimRow s rid) ⟨rid, .runTask i t, ratt + 1⟩).wfStatus = s.wfStatus :=
+              (recordExec_core c (claimRow s rid) ⟨rid, .runTask i t, ratt + 1⟩).2.1
+            obtain ⟨_, hw3⟩ := inner_fold_wf c inner _ hp2 (by rw [hw2]; exact h)
+            simp only [ackRow]
+            rw [applyEff_mark_wf', applyTxns_eq_flatten]
+            rcases applyTxn_wf_setWf _ (runTaskCommit c _ rid i t (ratt + 1) _ _).flatten with h1 | ⟨st, hst, _⟩
+            · rw [h1]; exact hw3.trans hw2
+            · exact absurd rfl ((runTaskCommit_effs c _ rid i t _ _ _ _ hst).1 st)
+      | startWorkflow => simp only [step, hf, hmsg]; exact hdel
+      | startStage _ _ => simp only [step, hf, hmsg]; exact hdel
+      | startTask _ _ => simp only [step, hf, hmsg]; exact hdel
+      | completeTask _ _ _ => simp only [step, hf, hmsg]; exact hdel
+      | completeStage _ => simp only [step, hf, hmsg]; exact hdel
+      | skipStage _ => simp only [step, hf, hmsg]; exact hdel
+      | cancelStage _ => simp only [step, hf, hmsg]; exact hdel
+      | completeWorkflow _ => simp only [step, hf, hmsg]; exact hdel
+      | cancelWorkflow => simp only [step, hf, hmsg]; exact hdel
+      | jumpToStage _ _ => simp only [step, hf, hmsg]; exact hdel
+      | signalStage _ _ => simp only [step, hf, hmsg]; exact hdel
+
+/-- **A final workflow status is final**: once the workflow has reached a final status, no operation list changes it - for
+    every workflow (any joins, OR-splits, jump loops, suspends) and every schedule (kills, redeliveries, sweeps, nested). -/
+theorem final_wf_status_stays_always (c : Cfg) (ops1 ops2 : List Op) (h : (run c ops1).wfStatus.isComplete = true) :
+    (run c (ops1 ++ ops2)).wfStatus = (run c ops1).wfStatus := by
+  have hrun : run c (ops1 ++ ops2) = ops2.foldl (step c) (run c ops1) := by simp [run, List.foldl_append]
+  rw [hrun]
+  have hp := (run_cancInv2_all c ops1).plumb
+  clear hrun
+  generalize run c ops1 = s at h hp ⊢
+  induction ops2 generalizing s with
+  | nil => rfl
+  | cons op ops ih =>
+    simp only [List.foldl]
+    have h1 := step_wf_final c s op hp h
+    have hp' : Plumb2 (step c s op) := (step_cancInv2_all c s op ⟨hp, fun _ => Or.inl h⟩).plumb
+    rw [ih _ (by rw [h1]; exact h) hp', h1]
+
+
 end Stab.Engine
